@@ -4,6 +4,8 @@ package rules
 //
 // Rules (all static, on the SSA of the current tree):
 //   C04.sort / C04.merge / C04.runs / C04.emit   pkg/ranges.Gaps        (c04_gaps.go)
+//   C04.walk    (*Value).Walk hands every value to the callback (own clause + C03.walk obligations)
+//   C04.link    (*D).AddChild really links a (gap) value into the tree (C03.addchild obligations)
 //   C04.opts    every decode.Options literal handed to decode()/Decode()
 //   C04.path    decode(): gap filling on every value-returning path, its arguments and order
 //   C04.leafs   (*D).FillGaps: what is collected, what is added
@@ -37,6 +39,18 @@ func runC04(r *fw.Run, p *fw.Program) {
 	c04Path(r, p)
 	c04Leafs(r, p)
 	c04Roots(r, p)
+	c04Walk(r, p)
+	// clauses a sibling property's rules already decide: the walk reaches every child, gap values are
+	// really linked into the tree, a child decoder reads the reader its value is rooted at
+	{
+		sc := r.Scratch()
+		runC03(sc, p)
+		r.Import(sc, "C03.walk", "C04.walk", "", 0, func(k string) bool {
+			return k == "Walk:all-children" || k == "Walk:order" || k == "wrapper:WalkRootPreOrder"
+		})
+		r.Import(sc, "C03.addchild", "C04.link", "(*D).AddChild(v), through which every gap value enters the tree: v is appended to the Children of d.Value's compound on every path that returns, for arrays and structs alike; a duplicate struct name never drops or replaces a value silently (no-return arm); v.Parent is set (C03.addchild obligations)", 5, nil)
+		r.Import(sc, "C03.range", "C04.roots", "", 0, func(k string) bool { return k == "fieldDecoder:one-reader" })
+	}
 	r.GxDumpObligations("C04.")
 	r.Assumption("C04: loads are not time-stamped in the symbolic model of ranges.Gaps; a condition is related only to the code it directly guards")
 	r.Assumption("C04: slices.SortFunc sorts according to the comparator; bitio.NewSectionReader(r, off, n) reads exactly bits [off, off+n) of r (C01)")
@@ -209,7 +223,7 @@ func c04Opts(r *fw.Run, p *fw.Program) {
 // C04.path
 
 func c04Path(r *fw.Run, p *fw.Program) {
-	ru := r.Rule("C04.path", "decode(): when opts.FillGaps is set every path that returns a value runs d.FillGaps(Range{0, decodeRange.Len}) on the decoder whose value is returned, over the same range the decoder's buffer was cut to, before the ranges are shifted to the parent's coordinates; a failed decode of a single-format group still reaches it; the shift adds decodeRange.Start and re-roots every value of this buffer", 10)
+	ru := r.Rule("C04.path", "decode(): when opts.FillGaps is set every path that returns a value runs d.FillGaps(Range{0, decodeRange.Len}) on the decoder whose value is returned, over the same range the decoder's buffer was cut to, before the ranges are shifted to the parent's coordinates; the range is opts.Range, or the whole reader {0, bitiox.Len(br)} exactly when opts.Range is zero; the next format is tried only after a failed decode of a group with more than one format (a failed single-format decode still reaches FillGaps); the shift adds decodeRange.Start and re-roots every value of this buffer unconditionally", 12)
 	fn := p.Fn("pkg/decode.decode")
 	fill := p.Fn("(*pkg/decode.D).FillGaps")
 	newDec := p.Fn("pkg/decode.newDecoder")
@@ -298,6 +312,7 @@ func c04Path(r *fw.Run, p *fw.Program) {
 	}
 	cutStart, cutLen := s.Int(cut.Call.Args[1]), s.Int(cut.Call.Args[2])
 	ru.Check(s.Val(cut.Call.Args[0]).Loc == "br", "decode:buffer-cut:reader", p.Rel(cut.Pos()), "buffer is cut from the br parameter", "decoder buffer is cut from "+s.Val(cut.Call.Args[0]).Loc+", not from the br parameter")
+	c04RangeDefault(ru, p, fn, s, cut)
 	// decoder cell
 	stored := false
 	if nd.Referrers() != nil {
@@ -395,16 +410,29 @@ func c04Path(r *fw.Run, p *fw.Program) {
 		switch cs.Val(st.Addr).Loc {
 		case "v.Range.Start":
 			want := fw.PAtom("v.Range.Start").Add(fw.PAtom("outer:" + cutStartAtom))
-			okShift = cs.Int(st.Val).Equal(want)
+			okShift = cs.Int(st.Val).Equal(want) && len(fw.Guards(st.Block())) == 0
 		case "v.RootReader":
-			okRoot = cs.Val(st.Val).Loc == "outer:br"
+			okRoot = cs.Val(st.Val).Loc == "outer:br" && len(fw.Guards(st.Block())) == 0
 		}
 	})
-	ru.Check(okShift, "decode:shift:start", p.Rel(shiftFn.Pos()), "v.Range.Start += decodeRange.Start", "values are not shifted by exactly the start of the range the buffer was cut at: field and gap ranges no longer address the bits they hold")
-	ru.Check(okRoot, "decode:shift:rootreader", p.Rel(shiftFn.Pos()), "v.RootReader = br", "shifted values are not re-rooted at the reader the ranges now refer to")
+	ru.Check(okShift, "decode:shift:start", p.Rel(shiftFn.Pos()), "v.Range.Start += decodeRange.Start, for every value", "values are not shifted (all of them, unconditionally) by exactly the start of the range the buffer was cut at: field and gap ranges no longer address the bits they hold")
+	ru.Check(okRoot, "decode:shift:rootreader", p.Rel(shiftFn.Pos()), "v.RootReader = br, for every value", "shifted values are not (all, unconditionally) re-rooted at the reader the ranges now refer to")
 	// (4) failed decode: the only way back to the loop header from the failure region is len(Formats) != 1
 	if header == nil {
 		ru.Undecided("decode:failed-continue", pos, "format loop not found")
+		return
+	}
+	// the ok result of the recovered DecodeFn call
+	var failedFact *fw.GxFact
+	fw.EachInstr(fn, func(ins ssa.Instruction) {
+		if ex, ok := ins.(*ssa.Extract); ok && ex.Index == 1 {
+			if c, ok := ex.Tuple.(*ssa.Call); ok && strings.HasSuffix(fw.CalleeName(c), "internal/recoverfn.Run") {
+				failedFact = &fw.GxFact{P: s.Int(ex), K: fw.GxEQ}
+			}
+		}
+	})
+	if failedFact == nil {
+		ru.Undecided("decode:failed-continue", pos, "the recovered call of the format's DecodeFn (recoverfn.Run) was not found")
 		return
 	}
 	nBack := 0
@@ -414,24 +442,274 @@ func c04Path(r *fw.Run, p *fw.Program) {
 		}
 		nBack++
 		key := fmt.Sprintf("decode:failed-continue#%d", nBack)
-		f, ok := s.EdgeFact(pr, header)
-		okF := false
-		if ok && f.K == fw.GxNE || ok && f.K == fw.GxGE {
+		// facts known when the back edge is taken: the guards of the jumping block plus, when it
+		// ends in a branch, the condition of the edge itself
+		var facts []fw.GxFact
+		for _, gf := range s.GuardFacts(pr) {
+			facts = append(facts, gf.GxFact)
+		}
+		if f, ok := s.EdgeFact(pr, header); ok {
+			facts = append(facts, f)
+		}
+		okF, okFailed := false, false
+		for _, f := range facts {
+			if f.Same(*failedFact) {
+				okFailed = true
+			}
+			if f.K != fw.GxNE && f.K != fw.GxGE {
+				continue
+			}
 			// len(X) - 1 != 0  or  len(X) - 2 >= 0 where X is a Formats list
 			for _, a := range f.P.Atoms() {
 				if strings.HasPrefix(a, "len(") && strings.HasSuffix(a, ".Formats)") {
 					one := fw.GxFact{P: fw.PAtom(a).Sub(fw.PConst(1)), K: fw.GxNE}
 					two := fw.GxFact{P: fw.PAtom(a).Sub(fw.PConst(2)), K: fw.GxGE}
-					okF = f.Same(one) || f.Same(two)
+					if f.Same(one) || f.Same(two) {
+						okF = true
+					}
 				}
 			}
 		}
-		lastIf, _ := pr.Instrs[len(pr.Instrs)-1].(*ssa.If)
-		ru.Check(okF, key, p.Rel(fw.GxIfPos(lastIf)), "next format is tried only when the group has more than one format",
-			"decode() moves on to the next format (dropping the partial tree and its gaps) under a condition other than len(group.Formats) != 1")
+		bpos := pos
+		if lastIf, isIf := pr.Instrs[len(pr.Instrs)-1].(*ssa.If); isIf {
+			bpos = p.Rel(fw.GxIfPos(lastIf))
+		} else if gs := fw.Guards(pr); len(gs) > 0 {
+			bpos = p.Rel(fw.GxIfPos(gs[0].If))
+		}
+		ru.Check(okF && okFailed, key, bpos, "next format is tried only after a failed decode and when the group has more than one format",
+			"decode() moves on to the next format (dropping the tree decoded so far and its gaps) although the decode did not fail or the group has only this one format (the condition must imply !rOk && len(group.Formats) != 1)")
 	}
 	if nBack == 0 {
 		ru.Undecided("decode:failed-continue", pos, "format loop has no back edge")
+	}
+}
+
+// c04RangeDefault: the range the buffer is cut to (and that is gap-filled) is opts.Range, or the
+// whole reader {0, bitiox.Len(br)} exactly when opts.Range is the zero range.
+func c04RangeDefault(ru *fw.Rule, p *fw.Program, fn *ssa.Function, s *fw.GxSym, cut *ssa.Call) {
+	pos := p.Rel(cut.Pos())
+	const key = "decode:range-default"
+	cellOf := func(v ssa.Value, field string) *ssa.Alloc {
+		fa, ok := c04LoadOf(v).(*ssa.FieldAddr)
+		if !ok || fieldNameOf(fa.X.Type(), fa.Field) != field {
+			return nil
+		}
+		a, _ := fa.X.(*ssa.Alloc)
+		return a
+	}
+	cell := cellOf(cut.Call.Args[1], "Start")
+	if cell == nil || cell != cellOf(cut.Call.Args[2], "Len") || !c04IsRange(p, cell.Type().Underlying().(*types.Pointer).Elem()) {
+		ru.Undecided(key, pos, "the buffer is not cut at (X.Start, X.Len) of one local range variable")
+		return
+	}
+	loc := s.Val(cell).Loc
+	// writes: whole-value stores, field stores of an in-place literal; none through closures
+	clean := true
+	var stores, fieldStores []*ssa.Store
+	inPlace := map[string]ssa.Value{}
+	for _, f := range fw.WithClosures(fn) {
+		fw.EachInstr(f, func(ins ssa.Instruction) {
+			st, ok := ins.(*ssa.Store)
+			if !ok {
+				return
+			}
+			if st.Addr == ssa.Value(cell) {
+				stores = append(stores, st)
+				return
+			}
+			fa, ok := st.Addr.(*ssa.FieldAddr)
+			if !ok {
+				return
+			}
+			if fa.X == ssa.Value(cell) {
+				name := fieldNameOf(fa.X.Type(), fa.Field)
+				if _, dup := inPlace[name]; dup {
+					clean = false
+				}
+				inPlace[name] = st.Val
+				fieldStores = append(fieldStores, st)
+				return
+			}
+			if fv, ok := fa.X.(*ssa.FreeVar); ok && f != fn {
+				for _, mcI := range *cell.Referrers() {
+					if mc, ok := mcI.(*ssa.MakeClosure); ok && mc.Fn == ssa.Value(f) {
+						for i, b := range mc.Bindings {
+							if b == ssa.Value(cell) && i < len(f.FreeVars) && f.FreeVars[i] == fv {
+								clean = false
+							}
+						}
+					}
+				}
+			}
+		})
+	}
+	// assignments: a whole-value store, or a literal built in place (optional zeroing store followed
+	// by field stores in the same block)
+	type asg struct {
+		blk *ssa.BasicBlock
+		pos token.Pos
+		val ssa.Value            // whole value (nil for a literal)
+		lit map[string]ssa.Value // literal fields
+	}
+	var asgs []*asg
+	litAt := map[*ssa.BasicBlock]*asg{}
+	for _, st := range stores {
+		if c, isC := st.Val.(*ssa.Const); isC && c.Value == nil {
+			if litAt[st.Block()] != nil {
+				clean = false
+			}
+			a := &asg{blk: st.Block(), pos: st.Pos(), lit: map[string]ssa.Value{}}
+			litAt[st.Block()] = a
+			asgs = append(asgs, a)
+			continue
+		}
+		asgs = append(asgs, &asg{blk: st.Block(), pos: st.Pos(), val: st.Val})
+	}
+	for _, fs := range fieldStores {
+		a := litAt[fs.Block()]
+		if a == nil {
+			a = &asg{blk: fs.Block(), pos: fs.Pos(), lit: map[string]ssa.Value{}}
+			litAt[fs.Block()] = a
+			asgs = append(asgs, a)
+		}
+		name := fieldNameOf(cell.Type(), fs.Addr.(*ssa.FieldAddr).Field)
+		if _, dup := a.lit[name]; dup {
+			clean = false
+		}
+		a.lit[name] = fs.Val
+	}
+	if !clean || len(asgs) != 2 {
+		ru.Fail(key, pos, fmt.Sprintf("the decode range is assigned %d times (or through a closure): expected opts.Range with the whole reader as the default for the zero range", len(asgs)))
+		return
+	}
+	zeroFacts := func(x string) []fw.GxFact {
+		return []fw.GxFact{{P: fw.PAtom(x + ".Start"), K: fw.GxEQ}, {P: fw.PAtom(x + ".Len"), K: fw.GxEQ}}
+	}
+	isZeroSet := func(fs []fw.GxFact) bool {
+		for _, x := range []string{loc, "opts.Range"} {
+			z := zeroFacts(x)
+			if len(fs) == 2 && (fs[0].Same(z[0]) && fs[1].Same(z[1]) || fs[0].Same(z[1]) && fs[1].Same(z[0])) {
+				return true
+			}
+		}
+		return false
+	}
+	// region(b): +1 the range is known to be zero at b, -1 known to be non-zero, 0 unguarded, 2 other
+	type ifArm struct {
+		i *ssa.If
+		t bool
+	}
+	global := map[ifArm]bool{} // conditions that also hold where the buffer is cut: not specific to an assignment
+	for _, g := range fw.Guards(cut.Block()) {
+		global[ifArm{g.If, g.True}] = true
+	}
+	region := func(b *ssa.BasicBlock) int {
+		var gs []fw.Guard
+		for _, g := range fw.Guards(b) {
+			if !global[ifArm{g.If, g.True}] {
+				gs = append(gs, g)
+			}
+		}
+		if len(gs) == 0 {
+			return 0
+		}
+		var fs []fw.GxFact
+		for _, gf := range s.GuardFacts(b) {
+			if !global[ifArm{gf.If, gf.True}] {
+				fs = append(fs, gf.GxFact)
+			}
+		}
+		if isZeroSet(fs) {
+			return 1
+		}
+		if len(gs) == 1 {
+			g := gs[0].Normalize()
+			if _, isCall := g.Cond.(*ssa.Call); isCall && !g.True {
+				var tf []fw.GxFact
+				var sub []fw.GxGuardFact
+				s.CondFacts(g.Cond, true, &sub)
+				for _, gf := range sub {
+					tf = append(tf, gf.GxFact)
+				}
+				if isZeroSet(tf) {
+					return -1
+				}
+			}
+		}
+		return 2
+	}
+	// value kinds
+	isOpts := func(v ssa.Value) bool { return s.Val(v).Loc == "opts.Range" }
+	litOf := func(v ssa.Value) map[string]ssa.Value {
+		f, _, ok := fw.GxLitFields(v)
+		if !ok {
+			return nil
+		}
+		return f
+	}
+	isWhole := func(f map[string]ssa.Value, zero bool) (bool, string) {
+		if f == nil {
+			return false, "not a Range literal"
+		}
+		st := fw.PConst(0)
+		if x, ok := f["Start"]; ok {
+			st = s.Int(x)
+		}
+		if zero {
+			for _, x := range []string{loc, "opts.Range"} {
+				st = fw.GxReplaceAtom(fw.GxReplaceAtom(st, fw.PAtom(x+".Start"), fw.PConst(0)), fw.PAtom(x+".Len"), fw.PConst(0))
+			}
+		}
+		if c, isC := st.IsConst(); !isC || c != 0 {
+			return false, "Start is " + st.String() + ", not 0"
+		}
+		ex, _ := f["Len"].(*ssa.Extract)
+		if ex == nil || ex.Index != 0 {
+			return false, "Len is not the length of the reader"
+		}
+		c, _ := ex.Tuple.(*ssa.Call)
+		if c == nil || c.Common().StaticCallee() != p.Fn("internal/bitiox.Len") || len(c.Call.Args) != 1 || s.Val(c.Call.Args[0]).Loc != "br" {
+			return false, "Len is not bitiox.Len(br)"
+		}
+		return true, ""
+	}
+	wrongA := func(w bool, why string) string {
+		if w {
+			return "it is not applied exactly when opts.Range is zero"
+		}
+		return why
+	}
+	wrongB := func(w bool, why string) string {
+		if w {
+			return "opts.Range does not replace it exactly when it is non-zero"
+		}
+		return why
+	}
+	const tail = ": a top-level or nested-buffer decode does not cover exactly its input, bits beyond are in no field and no gap"
+	a, b := asgs[0], asgs[1]
+	if !a.blk.Dominates(b.blk) || a.blk == b.blk {
+		a, b = b, a
+	}
+	litOrVal := func(x *asg) map[string]ssa.Value {
+		if x.val == nil {
+			return x.lit
+		}
+		return litOf(x.val)
+	}
+	ra, rb := region(a.blk), region(b.blk)
+	switch {
+	case ra != 0 || !a.blk.Dominates(b.blk) || a.blk == b.blk:
+		ru.Fail(key, p.Rel(a.pos), "the decode range is not initialised unconditionally before its default/override is applied")
+	case a.val != nil && isOpts(a.val):
+		w, why := isWhole(litOrVal(b), true)
+		ru.Check(rb == 1 && w, key, p.Rel(b.pos), "decodeRange = opts.Range, replaced by {0, bitiox.Len(br)} exactly when it is the zero range",
+			"the whole-reader default of the decode range is wrong ("+wrongA(w, why)+")"+tail)
+	case b.val != nil && isOpts(b.val):
+		w, why := isWhole(litOrVal(a), false)
+		ru.Check(rb == -1 && w, key, p.Rel(b.pos), "decodeRange = {0, bitiox.Len(br)}, replaced by opts.Range exactly when that is not the zero range",
+			"the whole-reader default of the decode range is wrong ("+wrongB(w, why)+")"+tail)
+	default:
+		ru.Fail(key, pos, "the decode range is not opts.Range with the whole reader as default")
 	}
 }
 
@@ -496,18 +774,61 @@ func c04LeafGuarded(p *fw.Program, b *ssa.BasicBlock, iv ssa.Value) bool {
 	return false
 }
 
+// c04AllReturnNil: every return of fn returns the nil error constant (single result).
+func c04AllReturnNil(fn *ssa.Function) bool {
+	ok, n := true, 0
+	fw.EachInstr(fn, func(ins ssa.Instruction) {
+		rt, isRet := ins.(*ssa.Return)
+		if !isRet {
+			return
+		}
+		n++
+		if len(rt.Results) != 1 {
+			ok = false
+			return
+		}
+		if c, isC := rt.Results[0].(*ssa.Const); !isC || !c.IsNil() {
+			ok = false
+		}
+	})
+	return ok && n > 0
+}
+
+// c04OnlyLeafGuard: the only branch conditions block b depends on are "iv.V is not a *Compound".
+func c04OnlyLeafGuard(p *fw.Program, b *ssa.BasicBlock, iv ssa.Value) bool {
+	comp := p.NamedType("pkg/decode", "Compound")
+	for _, g := range fw.Guards(b) {
+		g = g.Normalize()
+		ex, ok := g.Cond.(*ssa.Extract)
+		if !ok || ex.Index != 1 || g.True {
+			return false
+		}
+		ta, ok := ex.Tuple.(*ssa.TypeAssert)
+		if !ok || !ta.CommaOk || !c04IsPtrTo(ta.AssertedType, comp) || !c04FieldLoad(ta.X, iv, "V") {
+			return false
+		}
+	}
+	return true
+}
+
+type c04Wrapper struct {
+	w      *ssa.Function // the returned closure
+	exact  bool          // fn(iv) is called for every non-compound value (no other condition)
+	retNil bool          // the closure never returns an error (the walk is never cut short)
+}
+
 // c04LeafFilterWrapper: g(fn) returns a closure w(iv, ...) that calls fn(iv) only for non-compound iv.
-func c04LeafFilterWrapper(p *fw.Program, g *ssa.Function) bool {
+func c04LeafFilterWrapper(p *fw.Program, g *ssa.Function) *c04Wrapper {
 	if g == nil || len(g.Params) != 1 || len(g.Blocks) == 0 {
-		return false
+		return nil
 	}
 	cls := closuresReturnedBy(g)
 	if len(cls) != 1 {
-		return false
+		return nil
 	}
 	w := cls[0]
 	if len(w.Params) == 0 || len(w.FreeVars) != 1 {
-		return false
+		return nil
 	}
 	// the free variable is the cell holding g's parameter
 	var mc *ssa.MakeClosure
@@ -517,13 +838,13 @@ func c04LeafFilterWrapper(p *fw.Program, g *ssa.Function) bool {
 		}
 	})
 	if mc == nil || len(mc.Bindings) != 1 {
-		return false
+		return nil
 	}
 	cell, ok := mc.Bindings[0].(*ssa.Alloc)
 	if !ok || fw.GxParamCopy(cell) != g.Params[0] {
-		return false
+		return nil
 	}
-	n, good := 0, true
+	n, good, exact := 0, true, true
 	fw.EachInstr(w, func(ins ssa.Instruction) {
 		c, ok := ins.(*ssa.Call)
 		if !ok || c.Common().IsInvoke() || c.Common().StaticCallee() != nil {
@@ -536,8 +857,57 @@ func c04LeafFilterWrapper(p *fw.Program, g *ssa.Function) bool {
 		if len(c.Call.Args) != 1 || c.Call.Args[0] != ssa.Value(w.Params[0]) || !c04LeafGuarded(p, c.Block(), w.Params[0]) {
 			good = false
 		}
+		if !c04OnlyLeafGuard(p, c.Block(), w.Params[0]) {
+			exact = false
+		}
 	})
-	return n > 0 && good
+	if n == 0 || !good {
+		return nil
+	}
+	return &c04Wrapper{w: w, exact: exact && n == 1, retNil: c04AllReturnNil(w)}
+}
+
+// c04IsLeafGuard: the guard says that iv.V is not a *Compound.
+func c04IsLeafGuard(p *fw.Program, g fw.Guard, iv ssa.Value) bool {
+	g = g.Normalize()
+	ex, ok := g.Cond.(*ssa.Extract)
+	if !ok || ex.Index != 1 || g.True {
+		return false
+	}
+	ta, ok := ex.Tuple.(*ssa.TypeAssert)
+	return ok && ta.CommaOk && c04IsPtrTo(ta.AssertedType, p.NamedType("pkg/decode", "Compound")) && c04FieldLoad(ta.X, iv, "V")
+}
+
+// c04HasOtherGuards: block b depends on a condition besides the leaf filter.
+func c04HasOtherGuards(p *fw.Program, b *ssa.BasicBlock, iv ssa.Value) bool {
+	for _, g := range fw.Guards(b) {
+		if iv == nil || !c04IsLeafGuard(p, g, iv) {
+			return true
+		}
+	}
+	return false
+}
+
+// c04OnlyNonEmptyGuards: every branch condition block b depends on says that lenAtom is non-zero
+// (or that the visited value iv is not a compound: an inlined leaf filter).
+func c04OnlyNonEmptyGuards(p *fw.Program, s *fw.GxSym, b *ssa.BasicBlock, iv ssa.Value, lenAtom string) bool {
+	l := fw.PAtom(lenAtom)
+	for _, g := range fw.Guards(b) {
+		if iv != nil && c04IsLeafGuard(p, g, iv) {
+			continue
+		}
+		var fs []fw.GxGuardFact
+		s.CondFacts(g.Cond, g.True, &fs)
+		if len(fs) == 0 {
+			return false
+		}
+		for _, f := range fs {
+			if !f.Same(fw.GxFact{P: l, K: fw.GxNE}) && !f.Same(fw.GxFact{P: l.Sub(fw.PConst(1)), K: fw.GxGE}) {
+				return false
+			}
+		}
+	}
+	return true
 }
 
 // c04IsRangeOf: v is the Range stored at loc, or a literal Range{Start: loc.Start, Len: loc.Len}.
@@ -553,7 +923,7 @@ func c04IsRangeOf(s *fw.GxSym, v ssa.Value, loc string) bool {
 }
 
 func c04Leafs(r *fw.Run, p *fw.Program) {
-	ru := r.Rule("C04.leafs", "(*D).FillGaps: the list handed to ranges.Gaps holds exactly iv.Range of every non-compound value reached by a root-limited walk of d.Value (this buffer root only); every returned gap becomes a child Value{Range: gap, V: BitBuf{Actual: bitiox.Range(d.bitBuf, gap.Start, gap.Len), Flags: FlagGap}, RootReader: d.bitBuf} with an index-unique name; bitiox.Range sections (start, len) in that order", 16)
+	ru := r.Rule("C04.leafs", "(*D).FillGaps: the list handed to ranges.Gaps holds exactly iv.Range of every non-compound value reached by a root-limited walk of d.Value (this buffer root only): the filter withholds nothing but compounds, the callbacks never cut the walk short, each leaf is stored unconditionally in the next slot (or appended); every returned gap becomes a child Value{Range: gap, V: BitBuf{Actual: bitiox.Range(d.bitBuf, gap.Start, gap.Len), Flags: FlagGap}, RootReader: d.bitBuf} with an index-unique name; bitiox.Range sections (start, len) in that order", 21)
 	fn := p.Fn("(*pkg/decode.D).FillGaps")
 	gaps := p.Fn("pkg/ranges.Gaps")
 	bxRange := p.Fn("internal/bitiox.Range")
@@ -605,6 +975,7 @@ func c04Leafs(r *fw.Run, p *fw.Program) {
 		cb      *ssa.Function // innermost callback closure (after unwrapping the leaf filter)
 		cbMC    *ssa.MakeClosure
 		wrapped bool
+		wr      *c04Wrapper
 	}
 	var walks []walkInfo
 	for _, c := range fw.CallsIn(fn) {
@@ -629,11 +1000,12 @@ func c04Leafs(r *fw.Run, p *fw.Program) {
 			wi.cb = x.Fn.(*ssa.Function)
 		case *ssa.Call:
 			g := x.Common().StaticCallee()
-			if c04LeafFilterWrapper(p, g) && len(x.Call.Args) == 1 {
+			if wr := c04LeafFilterWrapper(p, g); wr != nil && len(x.Call.Args) == 1 {
 				if m, ok := c04Strip(x.Call.Args[0]).(*ssa.MakeClosure); ok {
 					wi.cbMC = m
 					wi.cb = m.Fn.(*ssa.Function)
 					wi.wrapped = true
+					wi.wr = wr
 				}
 			}
 		}
@@ -644,7 +1016,13 @@ func c04Leafs(r *fw.Run, p *fw.Program) {
 		}
 		if wi.wrapped {
 			ru.Ok(key+":leaf-filter", wpos, "callback runs only for non-compound values (filter wrapper)")
+			ru.Check(wi.wr.exact, key+":filter-exact", wpos, "the filter passes every non-compound value to the callback",
+				"the walk filter withholds some non-compound values from the callback (a condition besides `not *Compound`): their bits are reported as gaps on top of the field")
+			ru.Check(wi.wr.retNil, key+":no-abort", wpos, "the walk callback never returns an error",
+				"the walk callback can return an error (stop / skip children): the walk is cut short, the remaining leaf fields are not collected and gaps are added over them")
 		} else {
+			ru.Check(c04AllReturnNil(wi.cb), key+":no-abort", wpos, "the walk callback never returns an error",
+				"the walk callback can return an error (stop / skip children): the walk is cut short, the remaining leaf fields are not collected and gaps are added over them")
 			// inline filter: every store / increment in the callback must be leaf-guarded
 			okInline := true
 			fw.EachInstr(wi.cb, func(ins ssa.Instruction) {
@@ -652,7 +1030,19 @@ func c04Leafs(r *fw.Run, p *fw.Program) {
 					okInline = false
 				}
 			})
-			ru.Check(okInline, key+":leaf-filter", wpos, "callback acts only on non-compound values", "walk callback also acts on compound values: their ranges cover their children's holes")
+			fillsList := false
+			for _, b := range wi.cbMC.Bindings {
+				if b == ssa.Value(cell) {
+					fillsList = true
+				}
+			}
+			if !okInline && !fillsList {
+				// a walk that only counts may count compounds too: the list is then padded with empty
+				// ranges, which ranges.Gaps ignores (FillGaps:collect:size wants the count unconditional)
+				ru.Ok(key+":leaf-filter", wpos, "counting walk counts a superset of the collected values")
+			} else {
+				ru.Check(okInline, key+":leaf-filter", wpos, "callback acts only on non-compound values", "walk callback also acts on compound values: their ranges cover their children's holes")
+			}
 		}
 		walks = append(walks, wi)
 	}
@@ -673,6 +1063,8 @@ func c04Leafs(r *fw.Run, p *fw.Program) {
 		return nil
 	}
 	nCollect := 0
+	appendStyle := false
+	fillCond := false // the collector stores only non-empty ranges
 	for _, wi := range walks {
 		fv := boundTo(wi, cell)
 		if fv == nil {
@@ -687,6 +1079,7 @@ func c04Leafs(r *fw.Run, p *fw.Program) {
 		cpos := p.Rel(wi.cb.Pos())
 		nStore := 0
 		var idxAddr ssa.Value
+		var colStore, stepStore *ssa.Store
 		fw.EachInstr(wi.cb, func(ins ssa.Instruction) {
 			st, ok := ins.(*ssa.Store)
 			if !ok {
@@ -694,6 +1087,7 @@ func c04Leafs(r *fw.Run, p *fw.Program) {
 			}
 			if ia, ok := st.Addr.(*ssa.IndexAddr); ok && cs.SliceName(ia.X) == "S" {
 				nStore++
+				colStore = st
 				ru.Check(c04IsRangeOf(cs, st.Val, "iv.Range"), "FillGaps:collect:value", cpos, "collects iv.Range", "the collected value is "+cs.Val(st.Val).Loc+", not the visited value's Range")
 				idxAddr = c04LoadOf(ia.Index)
 				return
@@ -703,6 +1097,8 @@ func c04Leafs(r *fw.Run, p *fw.Program) {
 				if call, ok := st.Val.(*ssa.Call); ok {
 					es := fw.GxAppendElems(call)
 					nStore++
+					colStore = st
+					appendStyle = true
 					ru.Check(len(es) == 1 && c04IsRangeOf(cs, es[0], "iv.Range") && cs.SliceName(call.Call.Args[0]) == "S", "FillGaps:collect:value", cpos, "appends iv.Range", "the list is extended by something other than the visited value's Range")
 				}
 			}
@@ -711,6 +1107,9 @@ func c04Leafs(r *fw.Run, p *fw.Program) {
 			ru.Fail("FillGaps:collect:value", cpos, fmt.Sprintf("collector stores into the range list %d times per visited value, expected 1", nStore))
 		}
 		// index discipline: slot = *i ; *i = *i + 1 ; i starts at 0
+		if idxAddr == nil && !appendStyle && nStore == 1 {
+			ru.Fail("FillGaps:collect:index", cpos, "the slot a leaf range is stored in is not the plain value of a counter variable: slots are skipped or overwritten")
+		}
 		if idxAddr != nil {
 			ifv, _ := idxAddr.(*ssa.FreeVar)
 			okStep, okInit := false, false
@@ -718,6 +1117,7 @@ func c04Leafs(r *fw.Run, p *fw.Program) {
 				fw.EachInstr(wi.cb, func(ins ssa.Instruction) {
 					if st, ok := ins.(*ssa.Store); ok && st.Addr == ssa.Value(ifv) {
 						okStep = cs.Int(st.Val).Equal(fw.PAtom(cs.Val(ifv).Loc).Add(fw.PConst(1)))
+						stepStore = st
 					}
 				})
 				for i, fvv := range wi.cb.FreeVars {
@@ -738,12 +1138,31 @@ func c04Leafs(r *fw.Run, p *fw.Program) {
 			}
 			ru.Check(okStep && okInit, "FillGaps:collect:index", cpos, "slots 0,1,2,... are filled in turn", "the list slots are not filled consecutively from 0: leaf ranges are dropped (their bits become gaps) or overwritten")
 		}
+		// every visited leaf is collected: the store (and the index step) depends on no condition
+		// other than the range being non-empty (empty ranges are ignored by ranges.Gaps anyway)
+		if colStore != nil {
+			var ivv ssa.Value
+			if len(wi.cb.Params) > 0 {
+				ivv = wi.cb.Params[0]
+			}
+			okU := c04OnlyNonEmptyGuards(p, cs, colStore.Block(), ivv, "iv.Range.Len")
+			fillCond = c04HasOtherGuards(p, colStore.Block(), ivv)
+			if stepStore != nil && stepStore.Block() != colStore.Block() {
+				okU = false
+			}
+			ru.Check(okU, "FillGaps:collect:unconditional", cpos, "every visited leaf value is collected",
+				"the range of a visited leaf value is collected only under an additional condition (or the slot index advances under a different one): skipped fields are reported as gaps over decoded bits, or slots are overwritten")
+		}
 	}
 	if nCollect != 1 {
 		ru.Fail("FillGaps:collect", pos, fmt.Sprintf("%d walk callbacks fill the range list, expected 1", nCollect))
 	}
-	// sizing: make([]Range, n) with n counted by a walk of the same kind
-	if mk != nil {
+	// sizing: make([]Range, n) with n counted by a walk of the same kind; or an empty list that is
+	// appended to
+	if mk != nil && appendStyle {
+		c, isC := s.Int(mk.Len).IsConst()
+		ru.Check(isC && c == 0, "FillGaps:collect:size", p.Rel(mk.Pos()), "list starts empty and is appended to", "the range list is appended to but does not start empty (length "+s.Int(mk.Len).String()+"): the extra zero ranges are harmless only by accident, a non-zero start pads the list")
+	} else if mk != nil {
 		ncell, _ := c04LoadOf(mk.Len).(*ssa.Alloc)
 		okCount := false
 		if ncell != nil {
@@ -753,14 +1172,21 @@ func c04Leafs(r *fw.Run, p *fw.Program) {
 					continue
 				}
 				cs := fw.NewGxSym(wi.cb)
+				if len(wi.cb.Params) > 0 {
+					cs.Name(wi.cb.Params[0], "iv")
+				}
 				fw.EachInstr(wi.cb, func(ins ssa.Instruction) {
 					if st, ok := ins.(*ssa.Store); ok && st.Addr == ssa.Value(fv) {
-						okCount = cs.Int(st.Val).Equal(fw.PAtom(cs.Val(fv).Loc).Add(fw.PConst(1)))
+						okCount = cs.Int(st.Val).Equal(fw.PAtom(cs.Val(fv).Loc).Add(fw.PConst(1))) && c04OnlyNonEmptyGuards(p, cs, st.Block(), wi.cb.Params[0], "iv.Range.Len")
+						// counting only non-empty ranges is right only if only those are stored
+						if c04HasOtherGuards(p, st.Block(), wi.cb.Params[0]) && !fillCond {
+							okCount = false
+						}
 					}
 				})
 			}
 		}
-		ru.Check(okCount && mk.Len == mk.Cap || okCount && s.Int(mk.Len).Equal(s.Int(mk.Cap)), "FillGaps:collect:size", p.Rel(mk.Pos()), "list is sized by a count of the same leaf walk", "the range list is not sized by counting the same non-compound values: it is indexed out of range or padded")
+		ru.Check(okCount && mk.Len == mk.Cap || okCount && s.Int(mk.Len).Equal(s.Int(mk.Cap)), "FillGaps:collect:size", p.Rel(mk.Pos()), "list is sized by a count of the same leaf walk", "the range list is not sized by counting (unconditionally) the same non-compound values: it is indexed out of range or padded")
 	}
 	// order: count walk < make < fill walk < ranges.Gaps
 	{
@@ -860,14 +1286,17 @@ func c04Leafs(r *fw.Run, p *fw.Program) {
 	}
 	apos := p.Rel(add.Pos())
 	loop := map[*ssa.BasicBlock]bool{}
+	var header *ssa.BasicBlock
 	if ph, _, _, _, ok := fw.GxLoopPhi(elem.Index); ok {
-		loop = fw.GxNaturalLoop(ph.Block())
+		header = ph.Block()
+		loop = fw.GxNaturalLoop(header)
 	}
-	// every path from the cut to the next iteration passes AddChild (no-return arms aside)
-	skips := false
+	// every path from the start of the loop body (where the gap is read) to the next iteration passes
+	// AddChild (no-return arms aside)
+	skips := header == nil
 	{
 		seen := map[*ssa.BasicBlock]bool{}
-		stack := []*ssa.BasicBlock{sec.Block()}
+		stack := []*ssa.BasicBlock{elem.Block()}
 		for len(stack) > 0 {
 			b := stack[len(stack)-1]
 			stack = stack[:len(stack)-1]
@@ -875,15 +1304,16 @@ func c04Leafs(r *fw.Run, p *fw.Program) {
 				continue
 			}
 			seen[b] = true
-			if b != sec.Block() && fw.CurrentNR != nil && fw.CurrentNR.CutIndex(b) >= 0 {
+			if b != elem.Block() && b != sec.Block() && fw.CurrentNR != nil && fw.CurrentNR.CutIndex(b) >= 0 {
 				continue
 			}
 			if _, isRet := b.Instrs[len(b.Instrs)-1].(*ssa.Return); isRet || !loop[b] {
 				skips = true
+				continue
 			}
 			for _, su := range b.Succs {
-				if su == elem.Block() || (len(loop) > 0 && su.Dominates(sec.Block()) && su != sec.Block()) {
-					skips = true // back to the loop head without AddChild
+				if su == header {
+					skips = true // next iteration without AddChild
 					continue
 				}
 				stack = append(stack, su)
@@ -955,10 +1385,129 @@ func c04Leafs(r *fw.Run, p *fw.Program) {
 }
 
 // ---------------------------------------------------------------------------
+// C04.walk
+
+// c04Walk: the leaf collection of FillGaps (and the shift of decode()) see a value only if Walk
+// hands it to the callback. Own clause: the callback is invoked on the visited value under no
+// condition other than the PreOrder switch. The clauses "every child is visited" and "before /
+// after the children" are borrowed from C03.walk (see runC04).
+func c04Walk(r *fw.Run, p *fw.Program) {
+	ru := r.Rule("C04.walk", "(*Value).Walk, which collects the leaf ranges: the callback is called on every visited value, depending on nothing but the PreOrder switch (before the children iff PreOrder); every element of Children is visited recursively from 0; WalkRootPreOrder passes PreOrder and OneRoot (the last three are C03.walk obligations)", 5)
+	walk := p.Fn("(*pkg/decode.Value).Walk")
+	if walk == nil {
+		ru.Undecided("Walk:anchor", "pkg/decode/value.go", "(*Value).Walk not found")
+		return
+	}
+	found := false
+	for _, w := range fw.WithClosures(walk)[1:] {
+		if len(w.Params) == 0 {
+			continue
+		}
+		var optsFV *ssa.FreeVar
+		for _, fv := range w.FreeVars {
+			if pt, ok := fv.Type().Underlying().(*types.Pointer); ok {
+				if n, ok := pt.Elem().(*types.Named); ok && n.Obj().Name() == "WalkOpts" {
+					optsFV = fv
+				}
+			}
+		}
+		if optsFV == nil {
+			continue
+		}
+		s := fw.NewGxSym(w)
+		s.Name(w.Params[0], "wv")
+		s.Name(optsFV, "opts")
+		pre := fw.GxFact{P: fw.PAtom("opts.PreOrder"), K: fw.GxNE}
+		post := pre.Negate()
+		nPre, nPost := 0, 0
+		var sites []*ssa.Call
+		fw.EachInstr(w, func(ins ssa.Instruction) {
+			c, ok := ins.(*ssa.Call)
+			if !ok || c.Common().IsInvoke() || c.Common().StaticCallee() != nil {
+				return
+			}
+			fa, ok := c04LoadOf(c.Call.Value).(*ssa.FieldAddr)
+			if !ok || fa.X != ssa.Value(optsFV) || fieldNameOf(fa.X.Type(), fa.Field) != "Fn" {
+				return
+			}
+			sites = append(sites, c)
+		})
+		type arm struct {
+			i *ssa.If
+			t bool
+		}
+		for _, c := range sites {
+			found = true
+			// conditions shared with every other callback site hold for the whole visit (the value was
+			// not skipped as another buffer's root): they do not make the callback conditional
+			shared := map[arm]bool{}
+			for k, o := range sites {
+				if o == c {
+					continue
+				}
+				here := map[arm]bool{}
+				for _, g := range fw.Guards(o.Block()) {
+					here[arm{g.If, g.True}] = true
+				}
+				if k == 0 || (k == 1 && sites[0] == c) {
+					shared = here
+				} else {
+					for a := range shared {
+						if !here[a] {
+							delete(shared, a)
+						}
+					}
+				}
+			}
+			var facts []fw.GxGuardFact
+			for _, f := range s.GuardFacts(c.Block()) {
+				if !shared[arm{f.If, f.True}] {
+					facts = append(facts, f)
+				}
+			}
+			nG := 0
+			for _, g := range fw.Guards(c.Block()) {
+				if !shared[arm{g.If, g.True}] {
+					nG++
+				}
+			}
+			which := ""
+			if len(facts) == 1 && nG == 1 {
+				switch {
+				case facts[0].Same(pre):
+					which = "pre"
+					nPre++
+				case facts[0].Same(post):
+					which = "post"
+					nPost++
+				}
+			}
+			okArg := len(c.Call.Args) > 0 && c.Call.Args[0] == ssa.Value(w.Params[0])
+			var conds []string
+			for _, f := range facts {
+				conds = append(conds, f.String())
+			}
+			key := "Walk:callback:" + which
+			if which == "" {
+				key = "Walk:callback:conditional"
+			}
+			ru.Check(which != "" && okArg, key, p.Rel(c.Pos()), "Fn(wv, ...) depends only on the PreOrder switch",
+				"Walk calls the callback under the conditions ["+strings.Join(conds, "; ")+"] (expected only opts.PreOrder / !opts.PreOrder) or not on the visited value: values the callback never sees are missing from the leaf ranges and get a gap on top")
+		}
+		if found {
+			ru.Check(nPre == 1 && nPost == 1, "Walk:callback:both-orders", p.Rel(w.Pos()), "one callback site for each order", fmt.Sprintf("Walk has %d pre-order and %d post-order callback sites, expected one each", nPre, nPost))
+		}
+	}
+	if !found {
+		ru.Undecided("Walk:callback", p.Rel(walk.Pos()), "no call of opts.Fn found in the walk closure")
+	}
+}
+
+// ---------------------------------------------------------------------------
 // C04.roots
 
 func c04Roots(r *fw.Run, p *fw.Program) {
-	ru := r.Rule("C04.roots", "buffer-root marking: newDecoder roots its value at the reader it decodes and takes IsRoot from the options; every child decoder/value over a reader other than the parent's d.bitBuf is marked IsRoot; the walk skips sub-roots when OneRoot is set (before calling the callback) and WalkRoot* set it", 12)
+	ru := r.Rule("C04.roots", "buffer-root marking: newDecoder roots its value at the reader it decodes and takes IsRoot from the options; fieldDecoder uses its reader parameter for both D.bitBuf and Value.RootReader (C03.range obligation); every child decoder/value over a reader other than the parent's d.bitBuf is marked IsRoot; the walk skips sub-roots when OneRoot is set (before calling the callback) and WalkRoot* set it", 12)
 	valueT := p.NamedType("pkg/decode", "Value")
 	dT := p.NamedType("pkg/decode", "D")
 	nd := p.Fn("pkg/decode.newDecoder")
